@@ -4,7 +4,8 @@ import core, gennb, pyspec, wire
 
 PROP = 'C14'
 CATS = ['sources', 'outputs', 'attachments', 'metadata', 'id', 'details']
-ASSUME = ['category membership of a notebook location is decided by the harness from the property text (sources, outputs, attachments, metadata at notebook/cell/output level, cell ids, details = execution counts of cells and outputs)',
+ASSUME = ['for the text printed by nbdiff the renderer-side meaning of details is used (everything no other option covers: nbformat, nbformat_minor, remaining cell keys), as args.py documents',
+          'category membership of a notebook location is decided by the harness from the property text (sources, outputs, attachments, metadata at notebook/cell/output level, cell ids, details = execution counts of cells and outputs)',
           'the Ignore configuration mapping equivalent to a subset is built from the documented path table']
 
 def mapping_for(ignored):
@@ -42,6 +43,31 @@ def cats_of(path):
         if k == 'id': out.add('id')
         if k == 'execution_count': out.add('details')
     return out
+
+def render_cats(path):
+    """categories of a path printed by the text renderer; there 'details' also covers what no other option
+    covers (args.py: 'details not covered by other options'): nbformat, nbformat_minor, other cell keys"""
+    keys = [int(k) if k.isdigit() else k for k in path.split('/')[1:]]
+    out = cats_of(keys)
+    p = ['*' if isinstance(k, int) else k for k in keys]
+    if p[:1] in (['nbformat'], ['nbformat_minor']): out.add('details')
+    if p[:2] == ['cells', '*'] and len(p) >= 3 and p[2] not in ('source', 'outputs', 'attachments', 'metadata', 'id'): out.add('details')
+    return out
+
+def judge_render(case, res):
+    ignored = set(case['ignored'])
+    if 'render_error' in res: return 'render-raises:' + res['render_error'].get('err', '?'), res['render_error']
+    heads = res.get('render_headings')
+    if heads is None: return None, None
+    for action, path in heads:
+        hit = render_cats(path) & ignored
+        if hit: return 'render-reports-ignored-category:' + '+'.join(sorted(hit)), {'heading': [action, path]}
+    pa, pb = project(case['a'], ignored), project(case['b'], ignored)
+    if 'details' in ignored:
+        for k in ('nbformat', 'nbformat_minor'): pb[k] = pa.get(k)
+    if 'sources' not in ignored and pyspec.strict_eq(pa, pb) and heads:
+        return 'render-prints-entries-for-ignored-only-difference', {'headings': heads[:5]}
+    return None, None
 
 def leaf_locations(d, path=()):
     """locations named by the non-patch entries of a diff"""
@@ -109,6 +135,12 @@ def run(tier, seed):
                     if o['output_type'] == 'execute_result': o['execution_count'] = c['execution_count']
                     if 'metadata' in o: o['metadata'] = dict(o['metadata'], tweaked=r.randint(0, 9))
         pairs.append((a, bb, 'id+details+outmeta'))
+    # notebooks saved by different front-end versions: nbformat_minor differs (hidden by the renderer with details)
+    for i in range(3 if tier == 'quick' else 12):
+        a = gennb.gen_notebook(r, rich=(i % 2 == 0), minor=4)
+        bb = gennb.edit_notebook(r, a, intensity=1, allow=single[r.choice(list(single))]) if i % 3 else copy.deepcopy(a)
+        bb['nbformat_minor'] = r.choice([2, 3])
+        pairs.append((a, bb, 'minor'))
     cases = []
     for (a, bb, kind) in pairs:
         for ign in subsets:
@@ -119,14 +151,19 @@ def run(tier, seed):
             if tier == 'quick': modes = [r.choice(modes)] if r.random() < 0.8 else modes
             for m in modes:
                 cases.append({'a': a, 'b': bb, 'ignored': sorted(ign), 'mode': m, 'kind': kind})
-    tasks = [{'op': 'nbdiff_ignore', 'a': c['a'], 'b': c['b'], 'ignored': c['ignored'], 'mode': c['mode'], 'mapping': mapping_for(set(c['ignored']))} for c in cases]
+    tasks = [{'op': 'nbdiff_ignore', 'a': c['a'], 'b': c['b'], 'ignored': c['ignored'], 'mode': c['mode'], 'mapping': mapping_for(set(c['ignored'])), 'render': True} for c in cases]
     results = core.run_impl(tasks, shards=14)
-    hist = {}; nontrivial = set()
+    hist = {}; nontrivial = set(); rendered = 0
     for c, res in zip(cases, results):
         hist[c['mode']] = hist.get(c['mode'], 0) + 1
         if res.get('ok'): nontrivial.add(pyspec.canon([c['ignored'], c['mode'], res['ok']]))
         sig, detail = judge(c, res)
         if sig: chk.violation(sig, {'a': c['a'], 'b': c['b'], 'ignored': c['ignored'], 'mode': c['mode']}, detail)
+        if not sig and 'err' not in res:
+            if 'render_headings' in res or 'render_error' in res: rendered += 1
+            sig, detail = judge_render(c, res)
+            if sig: chk.violation(sig, {'a': c['a'], 'b': c['b'], 'ignored': c['ignored'], 'mode': c['mode']}, detail)
+    chk.cov['rendered_cases_judged'] = rendered
     # T1: the model under the generated table of the subset must output nbdime's diff exactly
     t1 = 0; mism = 0
     if getattr(b, 'model_ok', False):
@@ -158,8 +195,9 @@ def run(tier, seed):
 
 def replay(path):
     body = json.load(open(path)); c = body['case']
-    res = core.run_impl([{'op': 'nbdiff_ignore', 'a': c['a'], 'b': c['b'], 'ignored': c['ignored'], 'mode': c['mode'], 'mapping': mapping_for(set(c['ignored']))}])[0]
+    res = core.run_impl([{'op': 'nbdiff_ignore', 'a': c['a'], 'b': c['b'], 'ignored': c['ignored'], 'mode': c['mode'], 'mapping': mapping_for(set(c['ignored'])), 'render': True}])[0]
     sig, detail = judge(c, res)
+    if not sig and 'err' not in res: sig, detail = judge_render(c, res)
     print(json.dumps({'signature': sig, 'detail': detail}, default=str)[:2000])
     if sig:
         print('VIOLATION property=%s replay=%s' % (PROP, path)); return 1
